@@ -141,7 +141,12 @@ fn section_header_with_name<'sc>(
             // This can't be a match.
             continue;
         }
-        let n = module_memory.read(strtab_section_header.sh_offset + sh_name, name.len() as u64)?;
+        // `sh_offset` comes from the (possibly corrupt) module; saturate so that the read fails
+        // instead of the addition overflowing
+        let n = module_memory.read(
+            strtab_section_header.sh_offset.saturating_add(sh_name),
+            name.len() as u64,
+        )?;
         if name == &*n {
             return Ok(Some(header));
         }
@@ -424,9 +429,10 @@ impl<'buf> ModuleReader<'buf> {
         name_offset: u64,
     ) -> Result<String, Error> {
         assert!(name_offset < strtab_size);
-        let name = self
-            .module_memory
-            .read(strtab_offset + name_offset, strtab_size - name_offset)?;
+        let name = self.module_memory.read(
+            strtab_offset.saturating_add(name_offset),
+            strtab_size - name_offset,
+        )?;
         CStr::from_bytes_until_nul(&name)
             .map(|s| s.to_string_lossy().into_owned())
             .map_err(|_| Error::StrTabNoNulByte)
